@@ -101,6 +101,18 @@ BSTR = z3.Function("bytes_as_latin1", CoderId, S)             # the id bytes, re
 BSIZE = z3.Function("bytesio_size", BytesIO, I)
 AES_PREFIX = "\x06\xf1\x07"                                   # 7z method id 06 F1 07 xx = AES-256 + SHA-256
 
+ZipNames = ext_sort("ZipNames")
+NAMES = z3.Function("zip_namelist", ZipFile, ZipNames)          # ZipFile.namelist() (and any set / list built from it)
+INNAMES = z3.Function("zip_name_listed", ZipNames, S, B)
+
+
+def names_has(names_t, name_t):
+    """ASSUMED zipfile view: a name is listed by namelist() exactly when the archive has a member of that name."""
+    if z3.is_app(names_t) and names_t.decl().eq(NAMES):
+        return HASM(names_t.arg(0), name_t)
+    return INNAMES(names_t, name_t)
+
+
 MANIFEST = "META-INF/manifest.xml"
 OLE_ENC_STREAMS = ("EncryptionInfo", "EncryptedPackage", "DataSpaces")      # property statement (quantifier text)
 PPT_ENC_STREAMS = ("EncryptedSummary", "EncryptedSummaryInformation")       # [MS-PPT] encrypted document streams
@@ -380,6 +392,12 @@ class VModDict(VUnk):
         self.mod = mod
 
 
+class VClassOf(VUnk):
+    """type(x) of an instance: some class object; only its __name__ / __qualname__ (some str) is ever asked."""
+    def __init__(self):
+        super().__init__("type(x)")
+
+
 class VPieces(VUnk):
     """Result of s.split(sep) / s.rsplit(sep, 1): a list of unknown length >= 1 of which only the LAST piece is known."""
     __slots__ = ("last",)
@@ -441,6 +459,8 @@ def install_container_models(reg):
     reg.method_models[("OleFile", "openstream")] = m_ole_openstream
     reg.method_models[("OleStream", "read")] = m_olestream_read
     reg.ext_models["zipfile.is_zipfile"] = m_is_zipfile
+    for nm in ("defusedxml.ElementTree.fromstring", "xml.etree.ElementTree.fromstring"):      # (dotted form: a helper inlined from another module)
+        reg.ext_models[nm] = m_et_fromstring
     reg.method_models[("ZipFile", "read")] = m_zip_read
     reg.method_models[("Blob", "decode")] = m_blob_decode
     for nm in ("find", "rfind", "index", "count"):
@@ -566,8 +586,12 @@ class C08Executor(readfile.ReadFileExecutor):
         return super().exec_block(stmts, st)
 
     def _call(self, st, f, args, kwargs, node):
+        if os.environ.get("C08_DBG_CALL"):
+            print("CALL", type(f).__name__, getattr(f, "how", None), repr(getattr(f, "a", None))[:60], getattr(f, "b", None), file=sys.stderr)
         if isinstance(f, VFunc) and f.how == "classattr" and f.a == "int" and f.b == "from_bytes":
             return self.int_from_bytes(st, args, kwargs, node)
+        if isinstance(f, VType) and f.name == "type" and len(args) == 1 and not kwargs:
+            return [(st, VClassOf())]        # type(x): pure and total -- the (dynamic, possibly sub-)class of x; x is left as it is
         if isinstance(f, VFunc) and f.how == "classattr" and str(f.a).endswith("ElementTree") and f.b == "fromstring":
             return m_et_fromstring(self, st, args, kwargs, node)
         return super().call(st, f, args, kwargs, node)
@@ -853,6 +877,8 @@ class C08Executor(readfile.ReadFileExecutor):
                 return [(st, VStr(base.b if attr == "__qualname__" else base.b.split(".")[-1]))]
             if base.how == "closure" and hasattr(base.a, "name"):
                 return [(st, VStr(base.a.name))]
+        if isinstance(base, VClassOf) and attr in ("__name__", "__qualname__"):
+            return [(st, VStr(z3.String(fresh_name("class_name"))))]
         if isinstance(base, VMod) and attr == "__dict__":
             return [(st, VModDict(base.name))]
         if isinstance(base, VModDict) and attr == "update":
@@ -911,7 +937,16 @@ class C08Executor(readfile.ReadFileExecutor):
                         return [(st, VBool(t if op == "Eq" else z3.Not(t)))]
         return super().compare(st, op, a, b, node)
 
+    def b_collection(self, st, name, args, node):
+        if name in ("set", "frozenset", "list", "tuple") and len(args) == 1 and isinstance(args[0], VExt) and args[0].sort == "ZipNames":
+            return [(st, args[0])]           # a collection of the same member names: membership is all this pack asks of it
+        return super().b_collection(st, name, args, node)
+
     def contains(self, st, container, item, node):
+        if isinstance(container, VExt) and container.sort == "ZipNames":                                   # name in zf.namelist()
+            if isinstance(item, VStr):
+                return [(st, VBool(names_has(container.t, item.t)))]
+            return [(st, VBool(z3.Bool(fresh_name("in_namelist"))))]
         if isinstance(container, VExt) and container.sort == "PdfObj" and isinstance(item, VStr):       # "/CF" in encrypt
             return [(st, VBool(PHAS(container.t, item.t)))]
         if isinstance(container, VExt) and container.sort == "Blob":            # needle in <raw bytes of a ZIP member>
@@ -1565,6 +1600,78 @@ def handle_contracts(reg):
              "decoder's encryption signal escaping __enter__ both reach the extractor's handlers"))
     for c_ in out:
         EXECUTOR_KW[c_.target] = {"inline_calls": False, "inline_local": False}
+
+    # ZipContext (base class of _EpubContext): the EPUB detector asks it `exists(name)` and `read_xml_root(name)`
+    ZC = X + "util/zip_context.py"
+
+    def zc_self(zipless=False):
+        def mk(ex, st, name):
+            zf = VExt("ZipFile")
+            d = {"file_like": VExt("BytesIO"), "_zip": zf, "_namelist": VExt("ZipNames", NAMES(zf.t))}
+            from pyvc.state import HeapObj
+            from pyvc.values import VRef
+            return [(None, VRef(st.alloc(HeapObj("obj", d, "ZipContext", fresh=False), ex.refs)))]
+        return Maker(mk, desc="ZipContext in its class invariant: _namelist = the names of _zip (established by __init__)")
+
+    def zc_init_post(c):
+        d = _fields(c)
+        f = c.args["file_like"]
+        z, nl = d.get("_zip"), d.get("_namelist")
+        ok = (_same_ext(d.get("file_like"), f) and isinstance(z, VExt) and z.sort == "ZipFile" and isinstance(nl, VExt) and nl.sort == "ZipNames")
+        if not ok:
+            return z3.BoolVal(False)
+        p_ = z3.String("p!zc")
+        return z3.And(z.t == ZIP_OF(f.t), z3.ForAll([p_], names_has(nl.t, p_) == HASM(ZIP_OF(f.t), p_)))
+
+    out.append(FnContract(
+        target=f"{ZC}::ZipContext.__init__", params=[("self", p_obj("ZipContext", {})), ("file_like", p_ext("BytesIO"))],
+        modifies=("self", "file_like"), raises=[Raises("Exception", sub=True)],
+        ensures=[("opens-the-given-bytes-and-lists-exactly-their-member-names", zc_init_post)],
+        exc_ensures=[("opening-never-rejects-as-encrypted", lambda c: z3.Implies(z3.BoolVal(own(c)), z3.Not(is_enc_err(c))))],
+        note="class invariant of ZipContext: _zip = open_zipfile(the given bytes) (assumed C11 contract: the zipfile view of the same "
+             "bytes), _namelist = exactly the member names of _zip"))
+
+    def zc_zip(c):
+        return _fields(c, at_exit=False)["_zip"].t
+
+    out.append(FnContract(
+        target=f"{ZC}::ZipContext.exists", params=[("self", zc_self()), ("path", p_str())], raises=[], total=True,
+        returns=lambda c: VBool(HASM(zc_zip(c), c.args["path"].t)),
+        note="exists(name) <=> the opened archive has a member of exactly that name (no normalisation, no prefix match); total"))
+
+    def root_post(zf_of_c):
+        def post(c):
+            r = c.result
+            blob = MBLOB(zf_of_c(c), c.args["path"].t)
+            if not (isinstance(r, VExt) and r.sort == "XmlElem"):
+                return z3.BoolVal(False)
+            return z3.And(HASM(zf_of_c(c), c.args["path"].t), XMLOK(blob), r.t == XROOT(blob))
+        return post
+    zc_root_post = root_post(zc_zip)
+    not_enc = ("never-rejects-as-encrypted", lambda c: z3.Implies(z3.BoolVal(own(c)), z3.Not(is_enc_err(c))))
+
+    out.append(FnContract(
+        target=f"{X}util/zip_utils.py::read_zip_xml_root", params=[("zf", p_ext("ZipFile")), ("path", p_str())],
+        raises=[Raises("Exception", sub=True)],
+        returns=lambda c: VExt("XmlElem", XROOT(MBLOB(c.args["zf"].t, c.args["path"].t))),
+        ensures=[("root-of-exactly-that-member-which-exists-and-is-well-formed", root_post(lambda c: c.args["zf"].t))],
+        exc_ensures=[not_enc],
+        note="ElementTree root of zf.read(path) (assumed zipfile / defusedxml views: KeyError iff no such member, ParseError iff not "
+             "well formed); failures are library failures"))
+
+    out.append(FnContract(
+        target=f"{ZC}::ZipContext.read_xml_root", params=[("self", zc_self()), ("path", p_str())],
+        raises=[Raises("Exception", sub=True)],
+        ensures=[("root-of-exactly-that-member-of-the-opened-archive", zc_root_post)],
+        exc_ensures=[("reading-never-rejects-as-encrypted", lambda c: z3.Implies(z3.BoolVal(own(c)), z3.Not(is_enc_err(c))))],
+        note="read_xml_root(name) = ElementTree root of the member `name` of the archive opened by __init__ (assumed zipfile / "
+             "ElementTree views); failures are library failures"))
+
+    out.append(FnContract(
+        target=f"{ZC}::ZipContext.close", params=[("self", zc_self())], modifies=("self",), raises=[], total=True,
+        ensures=[("returns-None", lambda c: z3.BoolVal(c.result is NONE))],
+        note="close() only closes the archive handle (ZipFile.close() assumed total): the `finally: ctx.close()` of read_epub cannot "
+             "replace the file-encrypted error by another exception"))
     return out
 
 
@@ -1708,6 +1815,7 @@ def m_7z_extractall(ex, st, obj, args, kwargs, node):
 
 def install_archive_models(reg):
     reg.ext_models[("new", "zipfile.ZipFile")] = new_zipfile
+    reg.method_models[("ZipFile", "namelist")] = lambda ex, st, o, a, k, n: [(st, VExt("ZipNames", NAMES(o.t)))]
     reg.method_models[("ZipFile", "infolist")] = m_infolist
     reg.method_models[("ZipInfo", "is_dir")] = lambda ex, st, o, a, k, n: [(st, VBool(ISDIR(o.t)))]
     reg.attr_models[("ZipInfo", "flag_bits")] = lambda ex, st, o: VInt(FLAG(o.t))
